@@ -27,8 +27,6 @@ import (
 
 	"github.com/honeytrap/honeytrap/event"
 	tls "github.com/honeytrap/honeytrap/services/ja3/crypto/tls"
-
-	"github.com/honeytrap/honeytrap/pushers"
 )
 
 var (
@@ -60,17 +58,11 @@ type httpsService struct {
 
 	tlsConfig *tls.Config
 
-	c pushers.Channel
-
 	n int64
 
 	m sync.Mutex
 
 	cache map[string]*tls.Certificate
-}
-
-func (s *httpsService) SetChannel(c pushers.Channel) {
-	s.c = c
 }
 
 func (s *httpsService) getCertificate(hello *tls.ClientHelloInfo) (*tls.Certificate, error) {
